@@ -211,7 +211,8 @@ def check_netlist_clone(ctx, n, rng, st):
     ctx.count("queries_compared")
     if t_safe(hquery_counts, n) != t_safe(hquery_counts, c):
         return "netlist-clone-hquery-differs", "hierarchical enumerations (names) differ between source and clone"
-    if common.fenced(sys.modules[__name__], "clone-not-registered-in-namespace"):
+    fenced_ = common.fenced(sys.modules[__name__], "clone-not-registered-in-namespace")
+    if fenced_:
         ctx.count("fenced:exact-name-lookups-on-clone")
         qa, qb = name_queries(n, exact=False), name_queries(c, exact=False)
     else:
@@ -219,6 +220,9 @@ def check_netlist_clone(ctx, n, rng, st):
     ctx.count("queries_compared", len(qa))
     if qa != qb:
         k = next((x, y) for x, y in zip(qa, qb) if x != y)
+        if fenced_:
+            # (the open finding concerns EXACT-name lookups only, and those were not asked: this is something else)
+            return "netlist-clone-name-queries-differ", "wildcard name queries answer differently: source %s clone %s" % k
         return "clone-not-registered-in-namespace", "exact-name lookup answers differ: source %s clone %s" % k
     # (f) independence under edits
     for side in ("clone", "source"):
@@ -444,6 +448,8 @@ def decorate(ctx, n, rng):
         if rng.random() < 0.35:
             e["EDIF.properties"] = [{"identifier": "P", "value": rng.randint(0, 9)}] if "EDIF.properties" not in e else e["EDIF.properties"]
             e["VERILOG.parameters"] = {"W": str(rng.randint(1, 64)), "nested": {"l": [1, 2]}}
+            if rng.random() < 0.5:
+                e["placement"] = ("SLICE_X%dY%d" % (k, k), ["A6LUT", "AFF"])       # hashable outside, mutable inside
             k += 1
     ctx.count("elements_with_nested_data", k)
     # data is the user's: a key the constructors stamp on every element (the naming-policy key) may have been deleted; the
